@@ -520,13 +520,13 @@ def all_cases():
 
 
 def sub_docutils(acc, shard, nshards, tier, seed):
-    n = 300 if tier == "quick" else 12000
+    n = 300 if tier == "quick" else 8000
     hyp_run(acc, all_cases(), lambda c: check_case(acc, c, "docutils"), max_examples=n,
             seed=shard_seed(seed, shard), is_known=known().matches)
 
 
 def sub_sphinx(acc, shard, nshards, tier, seed):
-    n = 150 if tier == "quick" else 5000
+    n = 150 if tier == "quick" else 3000
     hyp_run(acc, all_cases(), lambda c: check_case(acc, c, "sphinx"), max_examples=n,
             seed=shard_seed(seed, shard, 1), is_known=known().matches)
 
